@@ -331,3 +331,138 @@ def primitive_units(prop):
     out = [Unit(f'{prop}.blake2b_{m}', ADAPTERS_PY, f'blake2b.{m}', blake_setup(m), blake_post(prop, m), prop=prop) for m in ('derive', 'mac', 'digest')]
     out.append(Unit(f'{prop}.scrypt_derive', ADAPTERS_PY, 'scrypt.derive', scrypt_setup, scrypt_post(prop), prop=prop))
     return out
+
+
+# ---- sha2 / sha3 adapters: every digest and every incremental hasher starts from a FRESH hash object -------------
+def hashlib_adapter_setup(b):
+    HOBJ = models.opaque_type('HashObject')
+    counter = {'n': 0}
+
+    def new_obj(st, origin, data=None):
+        counter['n'] += 1
+        o = sym.fresh(HOBJ, f'hashobj{counter["n"]}')
+        st.emit('hash_new', obj=o, origin=origin, data=data)
+        return o
+
+    def ctor(interp, st, args, kwargs):
+        st.emit('hash_ctor_kwargs', kwargs=dict(kwargs))
+        yield st, new_obj(st, 'constructor', args[0] if args else None)
+
+    def copy(interp, st, args, kwargs):
+        yield st, new_obj(st, 'copy')
+
+    def update(interp, st, args, kwargs):
+        st.emit('hash_update', obj=args[0], data=args[1])
+        yield st, None
+
+    def digest(interp, st, args, kwargs):
+        st.emit('hash_digest', obj=args[0])
+        yield st, sym.fresh(BYTES, 'digest')
+
+    HOBJ.attrs = {'copy': MethodModel('copy', copy), 'update': MethodModel('update', update), 'digest': MethodModel('digest', digest)}
+    me = Obj('self', _hasher_class=Model('hasher_class', ctor), digest_size=sym.const(INT, 'digest_size'))
+    me._lenient = True
+    b.bind('self', me)
+    b.me = me
+    b.sym('data', BYTES)
+
+    def wrap(interp, st, args, kwargs):
+        st.emit('incremental_wrapper', arg=args[0] if args else None)
+        yield st, Obj('incremental')
+
+    b.bind('HashlibIncrementalHasher', Model('HashlibIncrementalHasher', wrap))
+    b.bind('hashlib', Obj('hashlib', new=Model('hashlib.new', ctor), blake2b=Model('hashlib.blake2b', ctor)))
+
+
+def hashlib_adapter_post(prop, cls, method):
+    def post(res):
+        b = res.builder
+        for p in res.paths:
+            news = p.events('hash_new')
+            fresh = [e for e in news if e.data['origin'] == 'constructor']
+            if method == 'digest':
+                dg = p.events('hash_digest')
+                ok = p.kind == 'return' and len(dg) == 1 and isinstance(dg[0].data['obj'], SV)
+                if ok:
+                    mine = [e for e in fresh if e.data['obj'] is dg[0].data['obj']]
+                    ups = [e for e in p.events('hash_update') if e.data['obj'] is dg[0].data['obj']]
+                    fed = ([mine[0].data['data']] if mine and mine[0].data['data'] is not None else []) + [e.data['data'] for e in ups]
+                    ok = bool(mine) and len(fed) == 1 and fed[0] is b.st.lookup('data')
+                # the digest is that of a hash object created IN THIS CALL and fed exactly `data`: a pure function of the data
+                res.oblige(p, f'{prop}.{cls}.digest.fresh_hash_object_fed_exactly_the_data', z3.BoolVal(bool(ok)))
+            else:
+                w = p.events('incremental_wrapper')
+                ok = p.kind == 'return' and len(w) == 1 and isinstance(w[0].data['arg'], SV)
+                if ok:
+                    mine = [e for e in fresh if e.data['obj'] is w[0].data['arg']]
+                    ok = bool(mine) and mine[0].data['data'] is None and not p.events('hash_update')
+                # every incremental hasher (one per file) starts EMPTY and is nobody else's object
+                res.oblige(p, f'{prop}.{cls}.incremental_hasher.fresh_empty_hash_object', z3.BoolVal(bool(ok)))
+                if cls == 'blake2b':
+                    kws = p.events('hash_ctor_kwargs')
+                    okk = len(kws) == 1 and set(kws[0].data['kwargs']) == {'digest_size'}
+                    res.oblige(p, f'{prop}.blake2b.incremental_hasher.unkeyed_with_the_configured_digest_size', z3.BoolVal(okk) if not okk else
+                               sym.lift(kws[0].data['kwargs']['digest_size'], INT).z == b.me.get('digest_size').z)
+    return post
+
+
+def hashlib_adapter_units(prop):
+    return [Unit(f'{prop}.{cls}_{m}', ADAPTERS_PY, f'{cls}.{m}', hashlib_adapter_setup, hashlib_adapter_post(prop, cls, m), prop=prop)
+            for cls in ('sha2', 'sha3') for m in ('digest', 'incremental_hasher')] + [
+        Unit(f'{prop}.blake2b_incremental_hasher', ADAPTERS_PY, 'blake2b.incremental_hasher', hashlib_adapter_setup,
+             hashlib_adapter_post(prop, 'blake2b', 'incremental_hasher'), prop=prop)]
+
+
+# ---- _metadata_ts_to_dt: the times the listings print (current *_ns fields, pre-1.3 fields in seconds) -----------------
+def ts_to_dt_setup(variant):
+    def setup(b):
+        from specs import shared as _sh
+        me = _sh.repo_self(b, props=False, cache=False)
+        MD = models.opaque_type('FileMetadata', pytype='dict')
+        md = b.sym('metadata', MD)
+
+        def getitem(interp, st, v, idx):
+            if not isinstance(idx, str):
+                raise sym.Unsupported('metadata key')
+            st.emit('metadata_read', key=idx)
+            if idx.endswith('_ns') and variant == 'old':
+                yield st, Raised(Exc('KeyError'))
+            else:
+                yield st, SV(sym.REAL, z3.ToReal(UF('meta_int_' + idx, MD, INT)(v.z)))
+
+        MD.getitem = getitem
+        b.bind('key', 'st_mtime_ns')
+        DT = models.opaque_type('DateTime')
+        DT.attrs = {'replace': MethodModel('replace', lambda i, s, a, k: (s.emit('dt_replace', kwargs=dict(k)), iter([(s, a[0])]))[1])}
+
+        def fromtimestamp(interp, st, args, kwargs):
+            st.emit('fromtimestamp', ts=args[0], kwargs=dict(kwargs))
+            yield st, sym.fresh(DT, 'dt')
+
+        b.bind('datetime', Obj('datetime', fromtimestamp=Model('fromtimestamp', fromtimestamp)))
+        b.bind('timezone', Obj('timezone', utc=Obj('utc')))
+        b.MD = MD
+    return setup
+
+
+def ts_to_dt_post(prop, variant):
+    def post(res):
+        b = res.builder
+        md = b.st.lookup('metadata').z
+        for p in res.paths:
+            ft = p.events('fromtimestamp')
+            ok = p.kind == 'return' and len(ft) == 1
+            if variant == 'new':
+                want = z3.ToReal(UF('meta_int_st_mtime_ns', b.MD, INT)(md)) / 1000000000
+                what = 'nanoseconds_scaled_to_seconds'
+            else:
+                want = z3.ToReal(UF('meta_int_st_mtime', b.MD, INT)(md))
+                what = 'pre_1_3_seconds_used_as_they_are'
+            # the instant shown is the recorded one: *_ns fields are nanoseconds, the pre-1.3 fields are seconds
+            res.oblige(p, f'{prop}.metadata_ts_to_dt[{variant}].{what}', z3.BoolVal(ok) if not ok else sym.lift(ft[0].data['ts'], sym.REAL).z == want)
+    return post
+
+
+def ts_to_dt_units(prop):
+    return [Unit(f'{prop}.metadata_ts_to_dt[{v}]', REPO_PY, 'Repository._metadata_ts_to_dt', ts_to_dt_setup(v), ts_to_dt_post(prop, v), prop=prop)
+            for v in ('new', 'old')]
